@@ -3325,6 +3325,9 @@ def gen_all(repo):
             elif spec.get("ctx_mode"):          # round 7 (worker T): statement ranges of `HeContext::validate` (tools/rs2lean_ctx.py)
                 import rs2lean_ctx
                 res[name] = rs2lean_ctx.generate(sys.modules[__name__], tr, spec)
+            elif spec.get("mp_mode"):          # round 7 (worker W): multiparty protocol skeletons (tools/rs2lean_mp.py)
+                import rs2lean_mp
+                res[name] = rs2lean_mp.generate(sys.modules[__name__], tr, spec)
             else: res[name] = ladder_file(tr, spec) if spec.get("ladder") else tr.run_file(spec)
         except (Unsupported, SystemExit) as ex: res[name] = GenFailed(str(ex))
         except Exception as ex: res[name] = GenFailed("translator error: %s: %s" % (type(ex).__name__, ex))
@@ -3886,6 +3889,9 @@ TABLE_EVALCT += square_tables(EV, CSZ, PLEN, SC_OK, SC_OK_FIRST, _scale_ok)
 
 import rs2lean_ctx as _rs2lean_ctx          # round 7 (worker T): Gen/ContextFns.lean (tables in tools/rs2lean_ctx.py)
 FILES += [("ContextFns.lean", _rs2lean_ctx.SPEC)]
+
+import rs2lean_mp as _rs2lean_mp            # round 7 (worker W): Gen/MpFns.lean (tools/rs2lean_mp.py)
+FILES += [("MpFns.lean", _rs2lean_mp.SPEC)]
 
 if __name__ == "__main__":
     res = gen_all(sys.argv[1])
